@@ -59,7 +59,7 @@ theorem tie_sendStrings : sendStrings =
      "File segment %v extends past end of stream",
      "Block end %v comes before start of file segment %v"] := rfl
 
-/-- `parseManifestStream` after fixes 4f92334, b1a09e4, 2fef6b9: Model `pkgParseStream` / `pkgFileToks` (non-wrapping range test, canonical-path test for non-empty tokens). -/
+/-- `parseManifestStream` after fixes 4f92334, b1a09e4, 2fef6b9, c203269: Model `pkgParseStream` / `pkgFileToks` (non-wrapping range test, canonical-path test for every token but the zero-length `.` marker, stream-length overflow test). -/
 theorem tie_parseStreamConds : parseStreamConds = 
     ["if m.StreamName != \".\" && !strings.HasPrefix(m.StreamName, \"./\")",
      "for i < len(tokens)",
@@ -70,7 +70,7 @@ theorem tie_parseStreamConds : parseStreamConds =
      "if len(fileTokens) == 0",
      "if err != nil",
      "if pft.SegPos > streamoffset || pft.SegLen > streamoffset-pft.SegPos",
-   "if pft.SegLen > 0 && fixStreamName(m.StreamName+\"/\"+pft.Name) != m.StreamName+\"/\"+pft.Name"] := rfl
+   "if !(pft.SegLen == 0 && pft.Name == \".\") && fixStreamName(m.StreamName+\"/\"+pft.Name) != m.StreamName+\"/\"+pft.Name"] := rfl
 
 /-- `parseFileStreamSegment`: Model `pkgFileTok`. -/
 theorem tie_parseFileTokConds : parseFileTokConds = 
